@@ -255,13 +255,16 @@ fn s2(cache_idx: usize, prefix: &[usize], gated: bool) -> (ExecResult, Verdict) 
             let rounds = if t == 0 { 2 } else { 1 };
             if gated && t == 1 {
                 schedx::sched().gate_wait(1);
+                schedx::sched().gate_open(2);
             }
             for round in 0..rounds {
                 let a = schedx::sched().now();
                 let mut wt = db.begin_write().unwrap();
                 let b = schedx::sched().now();
                 if gated && t == 0 && round == 0 {
+                    // hand over until the other writer is parked on the write slot
                     schedx::sched().gate_open(1);
+                    schedx::sched().gate_wait(2);
                 }
                 if t == 1 {
                     wt.set_durability(Durability::None).unwrap();
